@@ -142,10 +142,14 @@ class file_store(base_store):
                 return
         except ImportError:
             pass
-        except OSError:
-            pass
-        except ValueError:
-            pass
+        except (OSError, ValueError):
+            if output.closed:
+                # everything was written; publishing it failed: report that
+                raise
+            # The raw write may have failed part-way: start the temporary
+            # file again instead of appending to what is already in it
+            output.seek(0)
+            output.truncate()
 
         encode_to(value, output)
         output.flush()
